@@ -44,6 +44,21 @@ def imread(filename: str) -> np.ndarray:
     return tifffile.imread(filename)
 
 
+def _imread_like(filename: str, shape: tuple[int, ...], dtype: np.dtype) -> np.ndarray:
+    """Read one file of a stack and check that it matches the first file.
+
+    The lazily stacked array is declared with the shape and dtype of the first file;
+    a file with another dtype would be cast to it silently (wrapping large labels).
+    """
+    image = imread(filename)
+    if image.shape != shape or image.dtype != dtype:
+        raise ValueError(
+            f"{filename} has shape {image.shape} and dtype {image.dtype}, but the first "
+            f"file of the stack has shape {shape} and dtype {dtype}"
+        )
+    return image
+
+
 PathOrStr = str | Path
 
 
@@ -99,7 +114,9 @@ def magic_imread(
                 dtype = image.dtype
             if use_dask:
                 image = da.from_delayed(
-                    delayed(imread)(filename), shape=shape, dtype=dtype
+                    delayed(_imread_like)(filename, shape, dtype),
+                    shape=shape,
+                    dtype=dtype,
                 )
             elif len(images) > 0:
                 image = imread(filename)
